@@ -4,6 +4,7 @@ import (
 	"encoding/json"
 	"fmt"
 	"runtime"
+	"strconv"
 	"strings"
 	"sync"
 	"testing"
@@ -198,6 +199,160 @@ func TestPropConcurrentGets(t *testing.T) {
 		}
 		msg, nt := runConcurrentGets(c)
 		ev.Case(nt, evid.Hash("concurrent", c.String()), "concurrent-gets-"+kind)
+		if msg != "" {
+			rt.Fatalf("%s\ncase: %s", msg, c)
+		}
+	})
+}
+
+// runConcurrentWriters: several goroutines mutate different ids of one store at the same
+// time (every id belongs to one goroutine, so its mutation order is known). For every
+// resource the events published for it, applied in order to an empty client, must add up to
+// what a fresh get returns at the end.
+func runConcurrentWriters(c Case, writers int) (msg string, nontrivial bool) {
+	f, err := newFixture(c.Cfg)
+	if err != nil {
+		return "VERIF-INCONCLUSIVE: " + err.Error(), false
+	}
+	defer f.cleanup()
+	ridFor := func(id string) string {
+		if c.Cfg.Trans == "custom" {
+			return ridBase(c.Cfg) + "x" + id + ".y"
+		}
+		return ridBase(c.Cfg) + id
+	}
+	var ids []string
+	owner := map[string]int{}
+	for _, m := range c.Muts {
+		if _, ok := owner[m.ID]; !ok {
+			owner[m.ID] = len(ids) % writers
+			ids = append(ids, m.ID)
+		}
+	}
+	created := map[string][]string{} // rid -> served value after each mutation that makes the resource appear
+	finalWant := map[string]string{}
+	var mu sync.Mutex
+	var wg sync.WaitGroup
+	errs := make([]string, writers)
+	for w := 0; w < writers; w++ {
+		wg.Add(1)
+		go func(w int) {
+			defer wg.Done()
+			model := map[string]string{}
+			for i, m := range c.Muts {
+				if owner[m.ID] != w {
+					continue
+				}
+				if m.K == "init" {
+					m.K = "create"
+				}
+				prev, existed := model[m.ID]
+				tx := f.st.Write(storeID(f.cfg, m.ID))
+				err := f.mutate(tx, m)
+				_ = tx.Close()
+				if okWanted := (m.K == "create") != existed; (err == nil) != okWanted {
+					errs[w] = fmt.Sprintf("mutation %d %+v: error %v with exists=%v (store contract)", i, m, err, existed)
+					return
+				}
+				if err != nil {
+					continue
+				}
+				if m.K == "delete" {
+					delete(model, m.ID)
+				} else {
+					model[m.ID] = m.V
+				}
+				t, ex := model[m.ID]
+				sBefore, sAfter := served(c.Cfg, prev, existed), served(c.Cfg, t, ex)
+				mu.Lock()
+				if sBefore == "" && sAfter != "" {
+					created[ridFor(m.ID)] = append(created[ridFor(m.ID)], sAfter)
+				}
+				finalWant[ridFor(m.ID)] = sAfter
+				mu.Unlock()
+				if i%3 == 1 {
+					runtime.Gosched()
+				}
+			}
+		}(w)
+	}
+	wg.Wait()
+	for _, e := range errs {
+		if e != "" {
+			return e, false
+		}
+	}
+	log := f.conn.Log()
+	busy := 0
+	for _, id := range ids {
+		rid := ridFor(id)
+		cl := client{rid: served(c.Cfg, "", false)}
+		n := 0
+		for _, e := range log {
+			if e.Kind != "pub" || !strings.HasPrefix(e.Subject, "event."+rid+".") {
+				continue
+			}
+			n++
+			name := e.Subject[strings.LastIndexByte(e.Subject, '.')+1:]
+			refetch := func() (string, error) {
+				q := created[rid]
+				if len(q) == 0 {
+					return "", fmt.Errorf("a create event that no mutation accounts for")
+				}
+				created[rid] = q[1:]
+				return q[0], nil
+			}
+			if m := cl.apply(rid, name, e.Data, refetch); m != "" {
+				return fmt.Sprintf("%d writers on different ids: event %d of %s (%s %s): %s", writers, n, rid, e.Subject, e.Data, m), true
+			}
+		}
+		if n > 2 {
+			busy++
+		}
+		fresh, err := f.get(rid)
+		if err != nil {
+			return "VERIF-INCONCLUSIVE: " + err.Error(), false
+		}
+		if want, ok := finalWant[rid]; ok && fresh != want {
+			return fmt.Sprintf("%d writers on different ids: a get of %s returns %q, its mutations leave %q", writers, rid, fresh, want), true
+		}
+		if cl[rid] != fresh {
+			return fmt.Sprintf("%d writers on different ids: the %d events published for %s add up to %q, a fresh get returns %q", writers, n, rid, cl[rid], fresh), true
+		}
+	}
+	return "", busy >= 2
+}
+
+// TestPropConcurrentWriters: writers on different ids of a per-id locking store (badger).
+func TestPropConcurrentWriters(t *testing.T) {
+	rapid.Check(t, func(rt *rapid.T) {
+		c := genCase("badger").Draw(rt, "case")
+		extra := rapid.IntRange(10, 60).Draw(rt, "extra")
+		for i := 0; i < extra; i++ {
+			c.Muts = append(c.Muts, c.Muts[rapid.IntRange(0, len(c.Muts)-1).Draw(rt, "again")])
+		}
+		writers := rapid.IntRange(2, 4).Draw(rt, "writers")
+		if c.Cfg.Type == "collection" && rapid.Bool().Draw(rt, "longdiffs") {
+			// every id goes through a series of long collections that differ in many places:
+			// several long diffs are being computed at the same time
+			c.Muts = nil
+			for _, id := range []string{"1", "2", "3", "4"} {
+				c.Muts = append(c.Muts, Mut{K: "create", ID: id, V: "[]"})
+			}
+			n := rapid.IntRange(20, 60).Draw(rt, "nlong")
+			for i := 0; i < n; i++ {
+				k := rapid.IntRange(40, 70).Draw(rt, "len")
+				rot := rapid.IntRange(0, 9).Draw(rt, "rot")
+				parts := []string{`"head"`}
+				for j := 0; j < k; j++ {
+					parts = append(parts, strconv.Itoa((j*7+rot*3+i)%10))
+				}
+				parts = append(parts, `"tail"`)
+				c.Muts = append(c.Muts, Mut{K: "update", ID: []string{"1", "2", "3", "4"}[i%4], V: "[" + strings.Join(parts, ",") + "]"})
+			}
+		}
+		msg, nt := runConcurrentWriters(c, writers)
+		ev.Case(nt, evid.Hash("concurrent-writers", c.String(), writers), "concurrent-writers")
 		if msg != "" {
 			rt.Fatalf("%s\ncase: %s", msg, c)
 		}
